@@ -15,6 +15,14 @@ NumV(t) == [a \in DOMAIN t.num |-> t.num[a]]
 StrV(t) == [a \in DOMAIN t.str |-> t.str[a]]
 NumClauses(t) == [f \in DOMAIN NumFields |-> t.ret.num[f] = Field(P(t), NumV(t), f)]
 BadNum(t) == {f \in DOMAIN NumFields : ~NumClauses(t)[f]}
+PB(t) == IF Has(t, "bits") THEN DOMAIN t.bits ELSE {}
+BitV(t) == [a \in PB(t) |-> Rng(t.bits[a])]
+NoDup(s) == \A a, b \in 1..Len(s) : s[a] = s[b] => a = b
+\* bit 1 of head.flags ("left sidebearing at x = 0") is recomputed by fontTools' maxp.recalc for TrueType outlines
+Ignored(t, f) == IF f = "headFlags" /\ t.flavor = "tt" THEN {1} ELSE {}
+BadBits(t) == IF ~Has(t.ret, "bits") THEN {}
+              ELSE {f \in BitFields : BitFieldDefined(PB(t), f) /\
+                      ~(NoDup(t.ret.bits[f]) /\ Rng(t.ret.bits[f]) \ Ignored(t, f) = BitField(P(t), StrV(t), PB(t), BitV(t), f) \ Ignored(t, f))}
 NameOK(t, id) == LET key == ToString(id) IN
                  IF Len(NameRecord(P(t), StrV(t), id)) = 0 THEN ~Has(t.ret.names, key)
                  ELSE Has(t.ret.names, key) /\ t.ret.names[key] = NameRecord(P(t), StrV(t), id)
@@ -23,6 +31,7 @@ Clauses(t) ==
   ELSE
   << <<"compiles", TRUE>>,
      <<"numeric-fields", BadNum(t) = {}>>,
+     <<"bit-list-fields", BadBits(t) = {}>>,
      <<"name-1-2-4", NameOK(t, 1) /\ NameOK(t, 2) /\ NameOK(t, 4)>>,
      <<"typographic-names", IF HasTypographicNames(P(t), StrV(t)) THEN NameOK(t, 16) /\ NameOK(t, 17)
                             ELSE ~Has(t.ret.names, "16") /\ ~Has(t.ret.names, "17")>>,
@@ -41,7 +50,7 @@ Init == i = 1
 Next == /\ i <= Len(Traces)
         /\ LET t == Traces[i]  cl == Clauses(t)  bad == {k \in 1..Len(cl) : ~cl[k][2]}
            IN PrintT(<<"VERDICT", t.tid, IF bad = {} THEN "none" ELSE cl[Min(bad)][1], "none",
-                       ToString(IF Has(t.ret, "err") THEN {} ELSE BadNum(t))>>)
+                       ToString(IF Has(t.ret, "err") THEN {} ELSE BadNum(t) \cup BadBits(t))>>)
         /\ i' = i + 1
 Spec == Init /\ [][Next]_i
 =============================================================================
